@@ -103,6 +103,38 @@ def consts(w=4):
 
 
 @design
+def wide_consts(w=40):
+    """constants wider than 16 / 32 / 64 bits with non-trivial digits (decimal and hex readings differ),
+    registers reset to such values"""
+    a, = _io([w])
+    k1 = (0x1200000034 << max(0, w - 40)) % (2 ** w) | 0x9
+    k2 = (2 ** w - 1) ^ 0x5A5
+    _out(a + pyrtl.Const(k1, bitwidth=w), 'out0')
+    _out(a < pyrtl.Const(k2, bitwidth=w), 'out1')
+    _out(a ^ pyrtl.Const(k2, bitwidth=w), 'out2')
+    r = pyrtl.Register(w, 'r', reset_value=k1)
+    r.next <<= r + a
+    _out(r, 'out3')
+
+
+@design
+def reg_chain(w=3, n=6):
+    """a delay line of registers fed directly by registers (several hops), and a swapped pair"""
+    a, = _io([w])
+    prev = a
+    for i in range(n):
+        r = pyrtl.Register(w, 'd%d' % i, reset_value=(i + 1) % (2 ** w))
+        r.next <<= prev
+        prev = r
+    _out(prev, 'out0')
+    x = pyrtl.Register(w, 'x', reset_value=1)
+    y = pyrtl.Register(w, 'y', reset_value=2 % (2 ** w))
+    x.next <<= y
+    y.next <<= x
+    _out(x, 'out1')
+
+
+@design
 def counter(w=3, reset_value=None):
     en, = _io([1])
     r = pyrtl.Register(w, 'cnt', reset_value=reset_value)
@@ -475,6 +507,8 @@ def family(tier='quick', seed=0):
     add('counter', w=3, reset_value=0)
     add('regs_reset', w=4)
     add('reg_swap', w=2)
+    add('reg_chain')
+    add('reg_chain', w=1, n=3)
     add('reg_const_next', w=2)
     add('reg_to_out', w=3)
     add('mem_rw')
@@ -572,4 +606,6 @@ def wide_family(tier='quick'):
         f.append({'name': 'wide_mem', 'params': {'aw': 3, 'dw': dw}})
     for dw in (8, 64, 66, 129):
         f.append({'name': 'wide_rom', 'params': {'aw': 3, 'dw': dw}})
+    for w in (17, 33, 40, 65, 70):
+        f.append({'name': 'wide_consts', 'params': {'w': w}})
     return f
